@@ -231,6 +231,11 @@ fn values_of(text: &str) -> Value {
             "wincons": m.cons.wincons.iter().map(|c| json!({"name": c.name, "f_f": n(c.f_f), "delta_u": n(c.delta_u), "g_glshwi": c.g_glshwi.map(n), "c_100": n(c.c_100)})).collect::<Vec<_>>(),
             "glasses": m.cons.glasses.iter().map(|g| json!({"name": g.name, "u_value": n(g.u_value), "g_gln": n(g.g_gln)})).collect::<Vec<_>>(),
             "frames": m.cons.frames.iter().map(|f| json!({"name": f.name, "u_value": n(f.u_value), "absorptivity": n(f.absorptivity)})).collect::<Vec<_>>(),
+            "schedules": {
+                "day": m.schedules.day.iter().map(|d| json!({"name": d.name, "values": d.values.iter().map(|v| n(*v)).collect::<Vec<_>>()})).collect::<Vec<_>>(),
+                "week": m.schedules.week.iter().map(|w| json!({"name": w.name, "runs": w.values.iter().map(|(id, c)| json!([m.schedules.day.iter().find(|d| d.id == *id).map(|d| d.name.clone()), c])).collect::<Vec<_>>()})).collect::<Vec<_>>(),
+                "year": m.schedules.year.iter().map(|y| json!({"name": y.name, "periods": y.values.iter().map(|(id, c)| json!([m.schedules.week.iter().find(|w| w.id == *id).map(|w| w.name.clone()), c])).collect::<Vec<_>>()})).collect::<Vec<_>>(),
+            },
             "windows": m.windows.iter().map(|w| json!({"name": w.name, "x": w.geometry.position.map(|p| n(p.x)), "y": w.geometry.position.map(|p| n(p.y)),
                 "width": n(w.geometry.width), "height": n(w.geometry.height), "setback": n(w.geometry.setback)})).collect::<Vec<_>>(),
         }))?)
